@@ -19,7 +19,7 @@ Section Pop.
     - destruct (ccur p) as [|x t] eqn:Ec.
       + pose proof (refresh_char_spec step maxSeq c HC HS p cs st H) as Hr.
         destruct (refresh_char c p) as [[p' b]|[| |e]]; try contradiction.
-        2:{ subst st. destruct Hnb; discriminate. }
+        2:{ unfold noBad in Hnb; unfold errOK in *; intuition congruence. }
         destruct Hr as [H1 [_ [_ [_ [Hb1 [Hb0 _]]]]]].
         destruct b; [|destruct (Hb0 eq_refl) as [E _]; contradiction].
         specialize (Hb1 eq_refl). destruct (ccur p') as [|y t'] eqn:Ec'; [now destruct Hb1|].
@@ -28,7 +28,7 @@ Section Pop.
     - destruct (ccur p) as [|x t] eqn:Ec.
       + pose proof (refresh_char_spec step maxSeq c HC HS p cs st H) as Hr.
         destruct (refresh_char c p) as [[p' b]|[| |e]]; try contradiction.
-        2:{ subst st. destruct Hnb; discriminate. }
+        2:{ unfold noBad in Hnb; unfold errOK in *; intuition congruence. }
         destruct Hr as [H1 [_ [_ [_ [Hb1 [Hb0 _]]]]]].
         destruct b; [|destruct (Hb0 eq_refl) as [E _]; contradiction].
         specialize (Hb1 eq_refl). destruct (ccur p') as [|y t'] eqn:Ec'; [now destruct Hb1|].
@@ -46,7 +46,7 @@ Section Pop.
     rewrite Ec.
     pose proof (refresh_char_spec step maxSeq c HC HS p [] st H) as Hr.
     destruct (refresh_char c p) as [[p' b]|[| |e]]; try contradiction.
-    2:{ subst st. destruct Hnb; discriminate. }
+    2:{ unfold noBad in Hnb; unfold errOK in *; intuition congruence. }
     destruct Hr as [[_ [_ [D [_ E]]]] _]. symmetry in E. apply app_eq_nil in E. destruct E as [E _]. rewrite E. reflexivity.
   Qed.
 
@@ -58,7 +58,7 @@ Section Pop.
     rewrite Ec.
     pose proof (refresh_char_spec step maxSeq c HC HS p [] st H) as Hr.
     destruct (refresh_char c p) as [[p' b]|[| |e]]; try contradiction.
-    2:{ subst st. destruct Hnb; discriminate. }
+    2:{ unfold noBad in Hnb; unfold errOK in *; intuition congruence. }
     destruct Hr as [[_ [_ [D [_ E]]]] _]. symmetry in E. apply app_eq_nil in E. destruct E as [E _]. rewrite E. reflexivity.
   Qed.
 End Pop.
